@@ -347,7 +347,7 @@ async def parent_listing(net, hyg, plan):
     tree = {"/0b_first": "<DIR>", "/0b_gone.txt": b"x"}
     tree.update({f"/a_{i:04d}": (b"a" if i % 2 else "<DIR>") for i in range(n)})
     tree["/b_last"] = "<DIR>"
-    w = W.World(net, tree=tree, users=[aioftp.User(base_path="/")], backend=plan.get("backend", "memory"))
+    w = W.World(net, tree=tree, users=lambda base: [aioftp.User(base_path=base)], backend=plan.get("backend", "memory"))
     await w.start()
     viol = []
     try:
